@@ -206,8 +206,8 @@ PROPS["C19"] = dict(
     pkg="./props/c19_leaks",
     tests=[REGRESS(), T("TestLeaks", (8, 150), (16, 3000)), T("TestKnownFindingD12", (1, 0), (1, 0)), T("TestHedgedRetryEvents", (2, 400), (4, 6000), pkg="./props/c16_events", env={"VERIF_LEAKCHECK": "1"})],
     prefer_json_replay=True,
-    rule="(TestHedgedRetryEvents, from the C16 harness, with a goroutine dump at the end: after all hedged-retry executions returned no goroutine may remain inside the retry or hedge policy) rapid-generated scenarios, each repeated 5..40 times in a row: core executions through stacks of {retry with and without backoff delays, firing and never-firing timeouts, real hedging with default and custom cancel conditions, 1 h hedge, fallback, 1 h bulkhead and limiter waits} run sync / async / async without ever reading the result, with functions that last 0..600 us or until cancelled, ended by success, failure, timeout, context cancellation or ExecutionResult.Cancel; HTTP calls through a private transport (retried statuses incl. outages where every attempt gets the same 429/500/503, hedged losers with default and custom cancel conditions whose answers arrive together (server-side barrier), retries rejected by an inner breaker or rate limiter (also: 5xx, rejected, breaker half-opened again, 200), inner transports whose Body.Close reports an error or which hand out responses without a Body, request bodies whose rewind fails, merged request/executor contexts, bodies read or not); gRPC interceptor calls with merged contexts; composition scenarios of the C01 generator; after everything returned and idle connections were closed, and while the caller's contexts are still alive, a goroutine dump is polled for up to 30 s: no goroutine may keep a frame of the module or of an HTTP client connection, and the goroutine count may not have grown; non-trivial = the scenario started a policy goroutine or timer (hedge, timeout, async runner, delay, merged context, retried response); distinct = the scenario",
-    assumptions=["a timer that is left armed but whose firing has no observable effect is invisible to this oracle",
+    rule="(TestHedgedRetryEvents, from the C16 harness, with a goroutine dump at the end: after all hedged-retry executions returned no goroutine may remain inside the retry or hedge policy) rapid-generated scenarios, each repeated 5..40 times in a row: core executions through stacks of {retry with and without backoff delays, firing and never-firing timeouts, real hedging with default and custom cancel conditions, 1 h hedge, fallback, 1 h bulkhead and limiter waits} run sync / async / async without ever reading the result, with functions that last 0..600 us or until cancelled, ended by success, failure, timeout, context cancellation or ExecutionResult.Cancel; HTTP calls through a private transport (retried statuses incl. outages where every attempt gets the same 429/500/503, hedged losers with default and custom cancel conditions whose answers arrive together (server-side barrier), retries rejected by an inner breaker or rate limiter (also: 5xx, rejected, breaker half-opened again, 200), inner transports whose Body.Close reports an error or which hand out responses without a Body, request bodies whose rewind fails, merged request/executor contexts, bodies read or not); gRPC interceptor calls with merged contexts; composition scenarios of the C01 generator; gRPC attempts answered with UNAVAILABLE (retried) or INTERNAL before one succeeds, or always; every core execution's context carries a token with a finalizer: after the goroutine oracle passed and the caller's contexts were ended, the collector runs and the tokens must have been finalized (an armed timer whose function refers to the execution keeps them reachable); after everything returned and idle connections were closed, and while the caller's contexts are still alive, a goroutine dump is polled for up to 30 s: no goroutine may keep a frame of the module or of an HTTP client connection, and the goroutine count may not have grown; non-trivial = the scenario started a policy goroutine or timer (hedge, timeout, async runner, delay, merged context, retried response); distinct = the scenario",
+    assumptions=["an armed timer is only visible through what its function keeps reachable (the reachability oracle: a finalizer on a token in each core execution's context; up to 4 tokens may linger because the runtime removes stopped timers lazily); channel timers that refer to nothing but their channel are invisible",
                  "the caller owns (and closes) the response it is handed, including the one carried by ExceededError",
                  "scenarios run one after the other within a process, so leftovers are attributable",
                  "known finding D12 (child contexts of async executions / Timeout applications / hedge attempts are not released on the normal path; with a hand-written parent context each keeps a watcher goroutine) is excluded by construction: a hand-written executor context is only combined with stacks that derive no such child context; TestKnownFindingD12 reproduces it separately"],
